@@ -109,7 +109,7 @@ public:
     std::map<std::string, Failure> knownHits;
     uint64_t pathsDone = 0, pathsKilledAssume = 0, pathsError = 0, pathsBudget = 0, forks = 0, totalInsns = 0;
     uint64_t qCached = 0; uint64_t poisonUsed = 0;
-    uint64_t qHeavy = 0; double slowestQ = 0; uint64_t qRetry = 0; uint64_t stratWins[3] = {0, 0, 0};
+    uint64_t qHeavy = 0; double slowestQ = 0; uint64_t qRetry = 0; uint64_t stratWins[3] = {0, 0, 0}; uint64_t extWins[2] = {0, 0};
     std::map<std::string, std::pair<uint64_t, double>> profile;
     uint64_t qTotal = 0, qSat = 0, qUnsat = 0, qUnknown = 0; double solverS = 0;
     uint64_t assertsChecked = 0, assertsSymbolic = 0, pathsWithSymAssert = 0, pathsWithAssert = 0;
@@ -154,6 +154,7 @@ public:
     bool concretize(State &s, Val &v, const Instruction *at, const char *what, unsigned maxVals = 64);
     // solver
     z3::check_result check(State &s, const z3::expr &extra, unsigned timeoutMs, z3::model *outModel = nullptr);
+    z3::check_result parallelCheck(const z3::expr &f, unsigned timeoutMs, z3::model *outModel);
     bool mayBeTrue(State &s, const z3::expr &c, bool &unknown);
     void addPC(State &s, const z3::expr &c);
     StateP fork(State &s);
